@@ -198,3 +198,22 @@ def run(ck):
         lps_, wit_ = always_scans(f_, member_)
         ck.ob('C05.sweep', 'C05.sweep/%s/always-scans' % q_.split('::')[-2], bool(lps_) and wit_ is None, f_.loc(),
               'every call of %s walks %s: a cleanup tick cannot skip expired state because a remembered "next expiry" is stale' % (q_.replace('ephemeralnet::', ''), what_), wit_)
+
+    # ---- erase-while-iterating loops advance in exactly one place: `it = c.erase(it)` loops have no increment in the for header -----------------------
+    from sa.paths import loops as _loops05
+    n_el = 0
+    for q_ in (KT + 'sweep_expired', CS + 'sweep_expired', N + 'tick'):
+        f_ = P.fn(q_)
+        for l in _loops05(f_):
+            nd = f_.nodes[l]
+            if nd['k'] != 'ForStmt':
+                continue
+            er_ = [i for i in f_.walk(nd['body']) if (f_.nodes[i].get('callee') or '').endswith('::erase') and f_.nodes[i]['k'] == 'CXXMemberCallExpr']
+            asg_ = [i for i in f_.walk(nd['body']) if f_.nodes[i]['k'] in ('CXXOperatorCallExpr', 'BinaryOperator') and f_.nodes[i].get('op') == '=' and any(e in set(f_.walk(i)) for e in er_)]
+            if not asg_:
+                continue
+            n_el += 1
+            inc = nd.get('inc')
+            ck.ob('C05.sweep', 'C05.sweep/%s/erase-loop-single-advance#%d' % (q_.split('::')[-2], n_el), inc is None or inc < 0, f_.loc(l),
+                  'a loop that erases with `it = c.erase(it)` does not also advance `it` in its for header (that would skip the element after every erased one)')
+    ck.floor('C05.sweep', 'erase-while-iterating loops in the sweeps', n_el, 3)
